@@ -27,11 +27,11 @@ META = dict(
          "exactly once with the largest accepted trailing slice (called_once_with_trailing_args, "
          "no_body_run_while_probing, no_accepted_arity_raises_typeError); the found arity is sticky (sticky_arity, "
          "wrapper_invariant); None/same keeps and any other value replaces the tokens (return_value_protocol, "
-         "condition_protocol); exceptions raised in the body at any depth propagate unchanged out of parse_string "
-         "and a ParseException fails just the element -- full strength after the arity is found for every class but "
-         "IndexError (body_exceptions_propagate_found), and PARTIAL (body_exceptions_propagate_partial) in that it "
-         "covers IndexError only while found_arity is still False: indexError_after_found_becomes_parseException "
-         "proves the property FALSE afterwards (known finding indexerror_after_arity_found). The call-line "
+         "condition_protocol); exceptions raised in the body at any depth propagate unchanged out of parse_string on "
+         "EVERY call and in every reachable wrapper state, and a ParseException fails just the element "
+         "(body_exceptions_propagate, full strength since the fix 5ea5199 of the former finding "
+         "indexerror_after_arity_found; its two halves are body_exceptions_propagate_probing / _found, and "
+         "indexError_after_found_propagates is the regression theorem for the repaired fast path). The call-line "
          "arithmetic (LINE_DIFF) is a generated-fact obligation (live_call_line). Gating: in the mini expression "
          "language (Or two passes, Each, SkipTo scan + fail_on, stop_on, NotAny/FollowedBy, Opt, ZeroOrMore, And, "
          "MatchFirst) fired_ids_firable proves by induction for all expressions/inputs that an action fires only "
@@ -58,9 +58,10 @@ THEOREMS = [
     "PP.TrimArity.wrapper_invariant",
     "PP.TrimArity.sticky_arity",
     "PP.TrimArity.first_return_sets_found",
-    "PP.TrimArity.body_exceptions_propagate_partial",
+    "PP.TrimArity.body_exceptions_propagate",
+    "PP.TrimArity.body_exceptions_propagate_probing",
     "PP.TrimArity.body_exceptions_propagate_found",
-    "PP.TrimArity.indexError_after_found_becomes_parseException",
+    "PP.TrimArity.indexError_after_found_propagates",
     "PP.TrimArity.return_value_protocol",
     "PP.TrimArity.condition_protocol",
     "PP.ActionGate.fired_ids_firable",
@@ -439,7 +440,7 @@ def project_model(out_line):
 # ================================================================================================
 # oracle: the theorem statements on the real observation (never more than they state)
 # ================================================================================================
-def oracle_trim(mode, acc, is_class, behs, obs, cover_index_after_found=False):
+def oracle_trim(mode, acc, is_class, behs, obs):
     """returns None or (description, theorem, signature)"""
     ks = [k for k in (3, 2, 1, 0) if k in acc]
     found = False
@@ -470,14 +471,10 @@ def oracle_trim(mode, acc, is_class, behs, obs, cover_index_after_found=False):
             found = True
         else:
             want = f"(raises {MODEL_EXC[beh[1]]})"
-            if MODEL_EXC[beh[1]] == "I" and found:
-                if not cover_index_after_found:
-                    continue
-                if top_s != want:
-                    return (f"invocation {i}: IndexError raised in the body after an earlier call returned; expected "
-                            f"{want}, got {top_s}", "property text (body_exceptions_propagate is false here: "
-                            "indexError_after_found_becomes_parseException)", SIG_INDEX)
-                continue
+            if MODEL_EXC[beh[1]] == "I" and found and top_s != want:
+                return (f"invocation {i}: IndexError raised in the body after an earlier call returned; expected "
+                        f"{want}, got {top_s}", "body_exceptions_propagate / indexError_after_found_propagates",
+                        SIG_INDEX)
             if top_s != want:
                 return (f"invocation {i}: body raised {beh[1]} at depth {beh[2]}, expected {want} out of parse_string, "
                         f"got {top_s}", "body_exceptions_propagate_partial / _found", None)
@@ -493,16 +490,6 @@ RETS_COND = [("ret", "T"), ("ret", "F")]
 
 def raises(depths=(0, 1, 2)):
     return [("raise", n, d) for n in EXC_NAMES for d in depths]
-
-
-def in_known_region(behs):
-    found = False
-    for b in behs:
-        if b[0] == "ret":
-            found = True
-        elif MODEL_EXC[b[1]] == "I" and found:
-            return True
-    return False
 
 
 def gen_trim_cases(ctx):
@@ -528,9 +515,14 @@ def gen_trim_cases(ctx):
                         if b == ("ret", "same") and k == 0:
                             b = ("ret", "none")
                         seq.append(b)
-                    if in_known_region(seq):
-                        continue
                     cases.append((mode, kind, k, seq))
+                # the formerly excluded region (fixed finding indexerror_after_arity_found): IndexError after a return
+                for r0 in rets:
+                    if r0 == ("ret", "same") and k == 0:
+                        continue
+                    for name in ("I", "Isub"):
+                        for d in (0, 2):
+                            cases.append((mode, kind, k, [r0, ("raise", name, d), r0, ("raise", name, d)]))
     return cases
 
 
@@ -636,7 +628,7 @@ class Log(list):
 
 
 def hook_first_pass(e, child_tree, log):
-    """Or / Each call `e.try_parse(...)` on their alternatives in the first pass (core.py:4277, 4624): make that
+    """Or / Each call `e.try_parse(...)` on their alternatives in the first pass (core.py:4288, 4635): make that
     observable.  A refactoring that no longer goes through the instance attribute only blunts this oracle."""
     orig = e.try_parse
 
@@ -1108,7 +1100,7 @@ def replay_witnesses(ctx, pp, cfg):
             continue
         behs = [tuple(b) for b in w["behs"]]
         obs, acc, is_class = run_real(pp, w["mode"], w["kind"], w["k"], behs)
-        bad = oracle_trim(w["mode"], acc, is_class, behs, obs, cover_index_after_found=True)
+        bad = oracle_trim(w["mode"], acc, is_class, behs, obs)
         ctx.count_cases("corpus", 1, distinct_keys=[p.name], samples=[{"witness": p.name, "impl": sx(obs)}])
         if bad:
             ctx.fail_input("parse action protocol broken (corpus witness)", {**w, "file": p.name}, bad[0], sx(obs),
@@ -1136,9 +1128,9 @@ def run(ctx):
         "trim: 3 modes (set_parse_action, add_condition, add_condition fatal) x 13 callable kinds x arity 0..4 x "
         "{return None/same/value | raise TypeError (explicit, bad call) / IndexError (+subclass) / ParseException / "
         "ParseFatalException / ParseSyntaxException / ValueError / KeyError at depth 0,1,2}, plus random 2-4 "
-        "invocation sequences on one wrapper; every case is non-trivial (one real parse_string per invocation); "
-        "generators stay out of the known-finding region (IndexError raised after an earlier call returned), which "
-        "is visited only by the registered corpus witness")
+        "invocation sequences on one wrapper, including IndexError raised after an earlier call returned (the region "
+        "of the fixed finding indexerror_after_arity_found, also replayed from corpus/C13 first); every case is "
+        "non-trivial (one real parse_string per invocation)")
     replay_witnesses(ctx, pp, cfg)
     check_trim(ctx, pp, cfg)
     check_clevel(ctx, pp, cfg)
@@ -1164,7 +1156,7 @@ def replay(data):
     if "behs" in case:
         behs = [tuple(b) for b in case["behs"]]
         obs, acc, is_class = run_real(pp, case["mode"], case["kind"], case["k"], behs)
-        return oracle_trim(case["mode"], acc, is_class, behs, obs, cover_index_after_found=True) is not None
+        return oracle_trim(case["mode"], acc, is_class, behs, obs) is not None
     ctx = common.Ctx("C13", "quick", data.get("seed", 0))
     run(ctx)
     return bool(ctx.broken or ctx.fail_inputs)
